@@ -61,9 +61,29 @@ theorem C02_prim_wrong_kind :
     (∀ p, p ≠ Prim.any → primOk p (.obj .nil) = false) ∧ (∀ p, p ≠ Prim.any → primOk p (.arr .nil) = false) := by
   refine ⟨rfl, rfl, rfl, rfl, rfl, rfl, rfl, rfl, ?_, ?_⟩ <;> intro p hp <;> cases p <;> simp_all [primOk]
 
-theorem C02_prim_canonical (defs : Defs) (cfg : Cfg) (fuel : Nat) (p : Prim) (d : Doc) :
+/-- a primitive in its specified encoding is its own canonical form, and nothing else of that type has one —
+except a double written as an integer -/
+theorem C02_prim_canonical (defs : Defs) (cfg : Cfg) (fuel : Nat) (p : Prim) (d : Doc)
+    (h : ∀ n, ¬ (p = .double ∧ d = .int n)) :
     canon defs cfg (fuel + 1) (.prim p) d = if primOk p d then some d else none := by
-  simp [canon]
+  simp only [canon]
+  unfold primCanon
+  split
+  · rename_i n; exact absurd ⟨rfl, rfl⟩ (h n)
+  · rfl
+
+/-- any JSON number is a double: one written as an integer (of magnitude below 2^53, where the conversion is exact)
+is accepted and re-serialized as that double; the result is a fixed point -/
+theorem C02_double_accepts_integers (defs : Defs) (cfg : Cfg) (fuel : Nat) (n : Int)
+    (h : -9007199254740991 ≤ n ∧ n ≤ 9007199254740991) :
+    canon defs cfg (fuel + 1) (.prim .double) (.int n) = some (.dbl (.fin (intBits n))) ∧
+    canon defs cfg (fuel + 1) (.prim .double) (.dbl (.fin (intBits n))) = some (.dbl (.fin (intBits n))) := by
+  have hs : safeInt n = true := by simp [safeInt, h]
+  simp [canon, primCanon, hs, primOk]
+
+/-- 3 is 0x4008000000000000, -3 is 0xC008000000000000, 0 is all zeros, 2^53 - 1 is 0x433FFFFFFFFFFFFF -/
+example : intBits 3 = 0x4008000000000000 ∧ intBits (-3) = 0xC008000000000000 ∧ intBits 0 = 0 ∧ intBits 1 = 0x3FF0000000000000 ∧
+    intBits 9007199254740991 = 0x433FFFFFFFFFFFFF ∧ intBits (-9007199254740991) = 0xC33FFFFFFFFFFFFF := by decide +kernel
 
 /-! #### enums -/
 theorem C02_enum (defs : Defs) (cfg : Cfg) (fuel n : Nat) (values : List Bytes) (s : Bytes)
